@@ -41,7 +41,7 @@ m = dict(
     version=1,
     setup_cmd="python3-vt -c \"import z3, cvc5; print('solvers ok', z3.get_version_string())\" && /venv/bin/python -c \"import numpy, pyspike\"",
     hooks=dict(guard="PYSPIKE_VERIF",
-               enable="no source hooks: contracts are sidecar files under /verif/pv/contracts keyed by (file, function, loop ordinal); nothing in /repo is instrumented (the eight 'fix:' commits in /repo are unguarded defect repairs, see known_findings.json)",
+               enable="no source hooks: contracts are sidecar files under /verif/pv/contracts keyed by (file, function, loop ordinal); nothing in /repo is instrumented (the nine 'fix:' commits in /repo are unguarded defect repairs, see known_findings.json)",
                baseline_off_cmd="cd /repo && /venv/bin/python -m pytest -ra -q -p no:cacheprovider --timeout=900 --continue-on-collection-errors",
                source_commits=[], add_only=True),
     engines=[dict(name="pv", path="pv/", serves_properties=[c['property_id'] for c in checks],
